@@ -6,6 +6,7 @@ import Enc.Lemmas.ProtoDepth
 import Enc.Lemmas.ProtoNamedMain
 import Enc.Lemmas.ProtoArray
 import Enc.Lemmas.ProtoPtrChains
+import Enc.Lemmas.ProtoPtrsMain
 /-!
 # C03 — proto: Unmarshal(Marshal(v)) == v and Size(v) == len(Marshal(v))
 
@@ -58,7 +59,8 @@ example : encode (.struct (.cons 1 false false false .int32 (.cons 2 false true 
 Universe `tyOK` (see Props/C12): messages with scalar fields of every kind and tag, byte arrays `[N]byte`, nested messages,
 optional `*T` and repeated `[]T` fields (`T` a scalar, `[N]byte` or a message), field numbers 1…65535 pairwise distinct;
 `hasType`: well-typed values in range (a `[N]byte` value has N bytes). Maps: `tyOKM` below; defined (named) types: `tyOK2` /
-`tyOKM2` at the end of the file. Outside: `[]*T`, `**T`, RawMessage (differential only) and the known-finding shapes.
+`tyOKM2`; repeated pointers `[]*T` and pointer chains `**T`: `tyOK3` / `tyOKM3` at the end of the file. Outside: `*[]T`, RawMessage
+(differential only) and the known-finding shapes.
 
 `hdep` (new with commit b70a382, `proto.maxDepth`): the message type is at most 10000 messages high (`Codec.nesting`: messages,
 repeated elements and map entries count, pointers do not). It is decidable, holds for every type one can write down, and
@@ -175,12 +177,60 @@ example : tyOKM (.struct exArr) = true ∧ hasTypeM (.struct exArr) (.struct exA
     ∧ Codec.nesting (codecOf (.struct exArr)) ≤ Gen.c_proto_maxDepth :=
   ⟨exArr_ty, exArr_val, exArr_ok, exArr_len, exArr_depth⟩
 
-/-! ## still outside every round-trip theorem: repeated pointers `[]*T`, pointer chains `**T`, RawMessage fields
+/-! ## repeated pointers `[]*T` and pointer chains `**T` (proofs in Enc/Lemmas/ProtoPtrs*.lean)
 
-Groundwork and the two witnesses that fix the value hypotheses such theorems need are in `Lemmas.ProtoPtrChains`:
-non-nil pointer elements / complete chains are transparent to the encoder (`encodeSlice_ptr`, `encode_ptr_ptr`), a nil
-element is written as a bare tag (`nil_elem_not_wire`, known finding proto-nil-ptr-in-collection), a `**T` ending in a nil
-pointer writes nothing and comes back nil (`ptr_to_nil_ptr_lost`, known finding proto-ptr-to-empty-encoding). -/
+Universes `tyOK3 ⊇ tyOK2`, `tyOKM3 ⊇ tyOKM2` (`ProtoPtrs.tyOK3_of_tyOK2`, `tyOKM3_of_tyOKM2`; on a type of the old universes the new
+hypotheses ARE the old ones, `ProtoPtrs.old_universe`: `rty t = erase t`, `rval t v = v`, `ptrsOK3 t v`): `nameSafe t` and
+`rty t = reduce (erase t)` in `tyOK` / `tyOKM`, where `reduce` removes the head pointers of every slice element and shortens
+every pointer chain to a single pointer. So `[]*T`, `[]**T` … are allowed wherever `[]T` is (scalars, `[]byte`, `[N]byte`,
+messages: `[]*Msg`), `**T`, `***T` … wherever `*T` is (fields, map values), at every depth and through defined types.
+The encoder writes a non-nil pointer element / a complete chain exactly like its pointee (`ProtoPtrs.marshal_red`), the
+decoder allocates the pointers it needs (`ProtoPtrs.unmarshalU_red`); `Codec.nesting` does not count pointers, so `hdep` is
+unchanged. Value hypotheses: those of the old theorems on the reduced value `rval t v` (the pointees) at the type `rty t`,
+and `ptrsOK3 t v`: no nil element in a `[]*T`, no chain ending in a nil pointer — exactly the two known findings below
+(`ProtoPtrs.nil_elem_excluded`, `ptr_to_nil_excluded`). -/
+
+open Lemmas.ProtoPtrs in
+/-- round trip with optional, repeated, repeated-pointer and pointer-chain fields -/
+theorem unmarshal_marshal_partial_ptrs (fs : Fields) (v : Val)
+    (hty : tyOK3 (.struct fs) = true) (hp : ptrsOK3 (.struct fs) v = true) (hv : hasType3 (.struct fs) v = true)
+    (hne : noEmptyPtr3 (.struct fs) v = true) (hlen : (marshal (.struct fs) v).length < 2 ^ 64)
+    (hdep : Codec.nesting (codecOf (.struct fs)) ≤ Gen.c_proto_maxDepth) :
+    ∃ v', unmarshal (.struct fs) (marshal (.struct fs) v) = .ok v'
+      ∧ Spec.Protobuf.canonical (.struct fs) v' = Spec.Protobuf.canonical (.struct fs) v :=
+  Lemmas.ProtoPtrs.unmarshal_marshal_partial_ptrs fs v hty hp hv hne hlen hdep
+
+open Lemmas.ProtoPtrs in
+/-- … and with map fields (`map[K]**T`, `map[K]Msg` with `[]*Item` inside, …) -/
+theorem unmarshal_marshal_map_partial_ptrs (fs : Fields) (v : Val)
+    (hty : tyOKM3 (.struct fs) = true) (hp : ptrsOK3 (.struct fs) v = true) (hv : hasTypeM3 (.struct fs) v = true)
+    (hne : valOKM3 (.struct fs) v = true) (hlen : (marshal (.struct fs) v).length < 2 ^ 64)
+    (hdep : Codec.nesting (codecOf (.struct fs)) ≤ Gen.c_proto_maxDepth) :
+    ∃ v', unmarshal (.struct fs) (marshal (.struct fs) v) = .ok v'
+      ∧ Spec.Protobuf.canonical (.struct fs) v' = Spec.Protobuf.canonical (.struct fs) v :=
+  Lemmas.ProtoPtrs.unmarshal_marshal_map_partial_ptrs fs v hty hp hv hne hlen hdep
+
+open Lemmas.ProtoPtrs in
+/-- non-vacuity: `struct{ Items []*Item; Next **Item; M map[string]*Item; Ns []*int32; PP ***int64; MM map[int32]**Item;
+L []**Item }`, `type Item struct{X int32; S string}`, with a concrete admissible value (`Lemmas.ProtoPtrs.exPVals`) -/
+example : tyOKM3 (.struct exPFields) = true
+    ∧ ptrsOK3 (.struct exPFields) (.struct exPVals) = true
+    ∧ hasTypeM3 (.struct exPFields) (.struct exPVals) = true
+    ∧ valOKM3 (.struct exPFields) (.struct exPVals) = true
+    ∧ (marshal (.struct exPFields) (.struct exPVals)).length < 2 ^ 64
+    ∧ Codec.nesting (codecOf (.struct exPFields)) ≤ Gen.c_proto_maxDepth := exP_hyps
+
+open Lemmas.ProtoPtrs in
+/-- … and `struct{ L []*int32; P **int32 }{L: {&3, &0}, P: &&0}` for the map-free theorem -/
+example : tyOK3 (.struct exQFields) = true
+    ∧ ptrsOK3 (.struct exQFields) (.struct exQVals) = true
+    ∧ hasType3 (.struct exQFields) (.struct exQVals) = true
+    ∧ noEmptyPtr3 (.struct exQFields) (.struct exQVals) = true
+    ∧ (marshal (.struct exQFields) (.struct exQVals)).length < 2 ^ 64
+    ∧ Codec.nesting (codecOf (.struct exQFields)) ≤ Gen.c_proto_maxDepth := exQ_hyps
+
+/-! ### the two value shapes `ptrsOK3` excludes are known findings (witnesses in `Lemmas.ProtoPtrChains`); still outside
+every round-trip theorem: `*[]T`, RawMessage fields -/
 
 open Lemmas.ProtoPtrChains in
 /-- the `**T` witness: `struct{P **int32}{P: &nil}` → no bytes → `{P: nil}` -/
